@@ -1,5 +1,6 @@
 //! SCAN command implementation
 
+use crate::storage::commands::RedisInt;
 use std::sync::Arc;
 use crate::protocol::RespFrame;
 use crate::error::Result;
@@ -15,7 +16,7 @@ pub fn handle_scan(storage: &Arc<StorageEngine>, db: usize, parts: &[RespFrame])
     // Parse cursor
     let cursor = match &parts[1] {
         RespFrame::BulkString(Some(bytes)) => {
-            match String::from_utf8_lossy(bytes).parse::<u64>() {
+            match String::from_utf8_lossy(bytes).parse_redis::<u64>() {
                 Ok(c) => c,
                 Err(_) => return Ok(RespFrame::error("ERR invalid cursor")),
             }
@@ -57,7 +58,7 @@ pub fn handle_scan(storage: &Arc<StorageEngine>, db: usize, parts: &[RespFrame])
                     "COUNT" => {
                         if i + 1 < parts.len() {
                             if let RespFrame::BulkString(Some(c)) = &parts[i + 1] {
-                                match String::from_utf8_lossy(c).parse::<usize>() {
+                                match String::from_utf8_lossy(c).parse_redis::<usize>() {
                                     Ok(n) => {
                                         count = n;
                                         i += 2;
@@ -109,7 +110,7 @@ pub fn handle_hscan(storage: &Arc<StorageEngine>, db: usize, parts: &[RespFrame]
     // Parse cursor
     let cursor = match &parts[2] {
         RespFrame::BulkString(Some(bytes)) => {
-            match String::from_utf8_lossy(bytes).parse::<u64>() {
+            match String::from_utf8_lossy(bytes).parse_redis::<u64>() {
                 Ok(c) => c,
                 Err(_) => return Ok(RespFrame::error("ERR invalid cursor")),
             }
@@ -141,7 +142,7 @@ pub fn handle_hscan(storage: &Arc<StorageEngine>, db: usize, parts: &[RespFrame]
                     "COUNT" => {
                         if i + 1 < parts.len() {
                             if let RespFrame::BulkString(Some(c)) = &parts[i + 1] {
-                                match String::from_utf8_lossy(c).parse::<usize>() {
+                                match String::from_utf8_lossy(c).parse_redis::<usize>() {
                                     Ok(n) => {
                                         count = n;
                                         i += 2;
@@ -197,7 +198,7 @@ pub fn handle_sscan(storage: &Arc<StorageEngine>, db: usize, parts: &[RespFrame]
     // Parse cursor
     let cursor = match &parts[2] {
         RespFrame::BulkString(Some(bytes)) => {
-            match String::from_utf8_lossy(bytes).parse::<u64>() {
+            match String::from_utf8_lossy(bytes).parse_redis::<u64>() {
                 Ok(c) => c,
                 Err(_) => return Ok(RespFrame::error("ERR invalid cursor")),
             }
@@ -228,7 +229,7 @@ pub fn handle_sscan(storage: &Arc<StorageEngine>, db: usize, parts: &[RespFrame]
                     "COUNT" => {
                         if i + 1 < parts.len() {
                             if let RespFrame::BulkString(Some(c)) = &parts[i + 1] {
-                                match String::from_utf8_lossy(c).parse::<usize>() {
+                                match String::from_utf8_lossy(c).parse_redis::<usize>() {
                                     Ok(n) => {
                                         count = n;
                                         i += 2;
@@ -280,7 +281,7 @@ pub fn handle_zscan(storage: &Arc<StorageEngine>, db: usize, parts: &[RespFrame]
     // Parse cursor
     let cursor = match &parts[2] {
         RespFrame::BulkString(Some(bytes)) => {
-            match String::from_utf8_lossy(bytes).parse::<u64>() {
+            match String::from_utf8_lossy(bytes).parse_redis::<u64>() {
                 Ok(c) => c,
                 Err(_) => return Ok(RespFrame::error("ERR invalid cursor")),
             }
@@ -311,7 +312,7 @@ pub fn handle_zscan(storage: &Arc<StorageEngine>, db: usize, parts: &[RespFrame]
                     "COUNT" => {
                         if i + 1 < parts.len() {
                             if let RespFrame::BulkString(Some(c)) = &parts[i + 1] {
-                                match String::from_utf8_lossy(c).parse::<usize>() {
+                                match String::from_utf8_lossy(c).parse_redis::<usize>() {
                                     Ok(n) => {
                                         count = n;
                                         i += 2;
